@@ -32,7 +32,15 @@ def static_part(chk):
                 hs[i] = ("F", seqs[i]) + st
             else:
                 hs[i] = ("P", seqs[i]) + rnd.choice(PA)
-        ops = ["raw %x %s" % (i * g.slot, ring.hdr_bytes(h, g.cap).hex()) for i, h in sorted(hs.items())] + ["bl", "fb"]
+        def enc(h):
+            # firmware geometries from one 4-byte fragment up to images that fill the data region (within its last 68 bytes, and exactly)
+            b = bytearray(ring.hdr_bytes(h, g.cap))
+            if h[0] == "F":
+                room = g.slot - session.DRO
+                sz, cnt = rnd.choice([(4, 1), (4, 1), (room, 1) if room <= 256 else (256, room // 256), (64, room // 64), (100, room // 100), (1, room), (1, room - 67), (room // 2, 2) if room // 2 <= 256 else (4, 1)])
+                b[8:12] = sz.to_bytes(4, "little"); b[12:16] = cnt.to_bytes(4, "little")
+            return bytes(b)
+        ops = ["raw %x %s" % (i * g.slot, enc(h).hex()) for i, h in sorted(hs.items())] + ["bl", "fb"]
         cases.append("%d %d %d|%s" % (ns, g.slot, g.blk, ";".join(ops)))
         conf = [(h[1], i) for i, h in hs.items() if h[0] == "F" and h[2:] == ("CO", "CO", "SU")]
         bl = "idle"
@@ -53,7 +61,7 @@ def static_part(chk):
         elif fb != wfb:
             chk.failures.append(core.Failure("fallback_firmware = %s, the most recently confirmed image (highest sequence number among confirmed firmware headers %s) is %s" % (fb, hs, wfb), "session", "matrix", c, raw[:1500], key="c12"))
         nt.append(c)
-        if len(chk.failures) > 10: break
+        if chk.too_many(): break
     chk.note_cases("static-arrangements", cases, nt, sample_n=1, dist={"cases": len(cases)})
     try:
         fvm = core.build_fvm()
